@@ -67,8 +67,10 @@ Raw(ev) == IF VQ(ev) # "ok" THEN VQ(ev) ELSE IF ev[5][1] = "v" THEN (IF VDistinc
 Verdict(ev) == IF ev[1] # "q" THEN "unknown-op"
                \* the known finding is about the RANGE of such an answer (bounds widened past the chunk, sequences that can
                \* no longer be restricted, or NullSequenceException): wrong members are never filed under it
-               ELSE IF Raw(ev) \in {"guids:bounds", "interval-guids:bounds", "identifiers:bounds", "guids:returns",
-                                    "interval-guids:returns", "identifiers:returns", "member-sequence-is-source-restricted"}
+               \* (the BOUNDS of such an answer are the members' own, as everywhere: never excused -- all excused events of the
+               \* current tree are sequences that cannot be restricted)
+               ELSE IF Raw(ev) \in {"guids:returns", "interval-guids:returns", "identifiers:returns",
+                                    "member-sequence-is-source-restricted"}
                        /\ WidensBeyondChunk(ev) /\ (ev[5][1] = "v" \/ ev[5][2] = "NullSequenceException")
                     THEN "id-query:widens-beyond-sequence-chunk" ELSE Raw(ev)
 Bad == {i \in DOMAIN Trace : Verdict(Trace[i]) # "ok"}
